@@ -13,6 +13,7 @@ from . import ty as T
 from .core import (
     PYOBJ,
     ContractMisfit,
+    SplitGuard,
     Obligation,
     Outcome,
     State,
@@ -209,10 +210,10 @@ class Executor(ExprMixin, StmtMixin, LoopMixin):
             if self.exc_matches(exc, caught):
                 if self.pending is None or self.qstack:
                     raise Unsupported(f"{exc} caught from inside a nested expression", node)
-                self.pending.append((z3.Not(cond), exc, node))
+                self.pending.append((z3.Not(cond), exc, node, st.copy()))
                 return
         if exc in self.c.raises and self.pending is not None and not self.qstack:
-            self.pending.append((z3.Not(cond), exc, node))
+            self.pending.append((z3.Not(cond), exc, node, st.copy()))
             return
         ln = getattr(node, "lineno", 0)
         self.oblige(st, cond, "safe", f"{exc}@L{ln}", node)
@@ -540,11 +541,29 @@ class Executor(ExprMixin, StmtMixin, LoopMixin):
                 self.assign_target(fnode.value, nv, st, node, mutate=True)
                 self.assumptions_used.add("python-container-semantics")
                 return res
+        if (isinstance(fnode, ast.Attribute) and fnode.attr == "union" and len(node.args) == 1 and isinstance(node.args[0], ast.Starred) and not node.keywords
+                and (isinstance(fnode.value, ast.Name) and fnode.value.id in ("set", "frozenset") and fnode.value.id not in st.env
+                     or isinstance(fnode.value, ast.Call) and isinstance(fnode.value.func, ast.Name) and fnode.value.func.id in ("set", "frozenset") and not fnode.value.args)):
+            # set.union(*xs) / set().union(*xs) over a list of sets of symbolic length: the big union
+            sv = models.materialize(self, self.eval(node.args[0].value, st))
+            if isinstance(sv.ty, T.List) and isinstance(sv.ty.elem, T.Set) and not sv.is_py:
+                L = lift(sv)
+                x = fresh(sv.ty.elem.elem, "ux")
+                i = z3.Int(fresh_name("ui"))
+                if isinstance(fnode.value, ast.Name):
+                    # set.union(*[]) raises TypeError (the unbound method needs a receiver)
+                    self.safety(st, z3.Length(L) > 0, "TypeError", node)
+                return Val(sv.ty.elem, z3.Lambda([x], z3.Exists([i], z3.And(i >= 0, i < z3.Length(L), z3.Select(L[i], x)))))
         fv = self.eval(fnode, st)
         args = []
         for a in node.args:
             if isinstance(a, ast.Starred):
-                sv = self.eval(a.value, st)
+                sv = models.materialize(self, self.eval(a.value, st))
+                n_known = self.known_length(st, sv) if (isinstance(sv.ty, T.List) and not sv.is_py) else None
+                if n_known is not None:
+                    # f(*xs) where the path condition fixes len(xs): the elements, position by position
+                    args.extend(Val(sv.ty.elem, lift(sv)[k]) for k in range(n_known))
+                    continue
                 sv = self.deopt(sv, st, node) if isinstance(sv.ty, T.Opt) else sv
                 if sv.is_py and isinstance(sv.py, (list, tuple)):
                     args.extend(x if isinstance(x, Val) else Val.const(x) for x in sv.py)
@@ -578,6 +597,24 @@ class Executor(ExprMixin, StmtMixin, LoopMixin):
             for n in names:
                 if n in st.env:
                     o.env[n] = st.env[n]
+
+    def known_length(self, st, v: Val, limit=16):
+        """the length of a symbolic list when the path condition determines it (and it is small), else None"""
+        ln = z3.Length(lift(v))
+        sol = z3.Solver()
+        sol.set("timeout", 300)
+        for p in st.pc:
+            if not z3.is_quantifier(p):
+                sol.add(p)
+        if sol.check() != z3.sat:
+            return None
+        try:
+            c = sol.model().eval(ln, model_completion=True).as_long()
+        except Exception:  # noqa
+            return None
+        if not 0 <= c <= limit:
+            return None
+        return c if self.entails(st, ln == c) else None
 
     def is_logger(self, n):
         if isinstance(n, ast.Name) and n.id in LOGGER_NAMES:
@@ -833,7 +870,7 @@ class Executor(ExprMixin, StmtMixin, LoopMixin):
             else:
                 handled = any(self.exc_matches(exc, c) for c in self.try_stack) or exc in self.c.raises
                 if handled:
-                    self.pending.append((cnd, exc, node))
+                    self.pending.append((cnd, exc, node, st.copy()))
                 else:
                     self.oblige(st, z3.Not(cnd), "safe", f"{exc}@L{ln}", node)
                     st.assume(z3.Not(cnd))
@@ -842,6 +879,8 @@ class Executor(ExprMixin, StmtMixin, LoopMixin):
         # a call under short-circuit / conditional-expression guards (`a and f(x)`, `f(x) if c else y`) only happens
         # when the guards hold: its effects are conditional on them
         active = [f for f in st.pc if getattr(f, "_is_guard", False)]
+        if active and cc.modifies and getattr(self, "_split_ok", False):
+            raise SplitGuard()  # the enclosing statement can make the guard an explicit `if`: simpler terms, exact frames
         heap_before, alloc_before = dict(st.heap), st.alloc
         for m in cc.modifies:
             if "." in m:
